@@ -12,6 +12,7 @@ mod own;
 mod q;
 mod alg;
 mod mat;
+mod xform;
 
 fn main() {
     let args: Vec<String> = std::env::args().collect();
@@ -24,6 +25,10 @@ fn main() {
         ("drive", "own") => own::drive(rest),
         ("drive", "products") => mat::drive_products(rest),
         ("drive", "detinv") => mat::drive_detinv(rest),
+        ("drive", "rot") => xform::drive_rot(rest),
+        ("drive", "quat") => xform::drive_quat(rest),
+        ("drive", "affine") => xform::drive_affine(rest),
+        ("drive", "view") => xform::drive_view(rest),
         (a, b) => { eprintln!("unknown command {} {}", a, b); std::process::exit(2); }
     }
 }
